@@ -6,6 +6,7 @@
 -/
 import XC.Model.C45
 import XC.Model.C46
+import XC.Model.C45_Keys
 namespace XC.C45
 open XC
 
@@ -92,6 +93,41 @@ theorem opaqueAll_count (s : Bytes) : (opaqueAll s).1.length ≤ s.length := by
         have := ih rest.length (by omega) rest rfl
         simp only [List.length_cons]
         omega
+
+/-- **packet.Read dispatch**: whatever the packet parser selected by the tag consumes of the contents
+    (`k` bytes — `packet.Read` does not skip what a parser leaves unread), the reader stands strictly
+    further in the input after one `Read` than before: every iteration of `Reader.Next` / `ReadMessage` /
+    `ReadKeyRing` consumes at least the header octet, or ends with an error / EOF. -/
+theorem read_dispatch_progress {s : Bytes} {h : Header} (hh : readHeader s = .ok h) (k : Nat) :
+    (h.rest.drop k).length < s.length := by
+  have := readHeader_lt hh
+  simp only [List.length_drop]; omega
+
+/-! ## key-ring assembly (keys.go) -/
+
+/-- **readEntity_total**: `ReadEntity` (a well-founded recursion over the items `Reader.Next` yields) always
+    consumes at least one item — except when the first packet is not a key: then that packet is put back
+    and is not a primary public key, so `readToNextPublicKey` consumes it. This is the progress argument of
+    the `ReadKeyRing` loop (`C45K.readKeyRing` is defined by well-founded recursion using exactly it). -/
+theorem readEntity_total (s : List C45K.Item) :
+    match C45K.readEntity s with
+    | .ok (_, r) => r.length < s.length
+    | .error (.notKey, r) => r.length ≤ s.length ∧ C45K.headNotPrimary r = true
+    | .error (.eof, _) => True
+    | .error (_, r) => r.length < s.length :=
+  C45K.readEntity_progress s
+
+/-- the inner loops never hand back more than they were given (Unread puts back exactly one item) -/
+theorem keyring_loops_consume (prim u k : Nat) (b : Bool) (e : C45K.Entity) (s : List C45K.Item) :
+    (C45K.addUserID prim u b s).rest.length ≤ s.length ∧
+    (C45K.addSubkey prim k b s).rest.length ≤ s.length ∧
+    (C45K.eachPacket e s).rest.length ≤ s.length :=
+  ⟨C45K.addUserID_le prim u b s, C45K.addSubkey_le prim k b s, C45K.eachPacket_le e s⟩
+
+/-- `readToNextPublicKey` consumes the item in front unless it is a primary public key -/
+theorem readToNext_progress (s r : List C45K.Item) (hp : C45K.headNotPrimary s = true)
+    (h : C45K.readToNext s = .ok r) : r.length < s.length :=
+  C45K.readToNext_lt s r hp h
 
 /-! ## MPIs -/
 
